@@ -30,8 +30,10 @@ IndicesOK(d, obs) == d.kind = "enum" => LET kv == KeptVariants(d) IN
     /\ \A j \in 1..Len(kv) : obs.def.variants[j].index = ExpIndex(d, j)
 AcceptDerived(e) ==
   LET d == DeclOf(e.id) IN
-  CASE Check = "C09" -> IF BlankIdx(e.obs) = Meta(d, EnvOf(e, d), FALSE) THEN TRUE
-                        ELSE PrintT(<<"EXPECTED", ToJson(Meta(d, EnvOf(e, d), FALSE))>>) /\ FALSE
+  CASE Check = "C09" -> IF BlankIdx(e.obs) = Meta(d, EnvOf(e, d), FALSE)
+                             \* ... and in the PORTABLE form too a parameter is without a type exactly when it is skipped
+                             /\ e.pparams = [i \in 1..Len(d.tparams) |-> <<d.tparams[i].name, ~d.tparams[i].skip>>] THEN TRUE
+                        ELSE PrintT(<<"EXPECTED", ToJson(Meta(d, EnvOf(e, d), FALSE)), "PORTABLE PARAMETERS", e.pparams>>) /\ FALSE
     [] Check = "C03" -> IndicesOK(d, e.obs)
     [] Check = "C17" -> NoPhantomObs(e.obs, e.phantom)
     [] OTHER -> TRUE
